@@ -53,4 +53,14 @@ def ringsLen : Nat → Nat
   | 0 => 0
   | D + 1 => ringsLen D + 4 * (D + 1)
 
+/-- the four von Neumann neighbours in the documented order: left, right, up (y-1), down (y+1) -/
+def neumann (p : Pos) : List Pos := [⟨p.x - 1, p.y⟩, ⟨p.x + 1, p.y⟩, ⟨p.x, p.y - 1⟩, ⟨p.x, p.y + 1⟩]
+
+/-- the eight Moore neighbours: the von Neumann ones, then the four diagonal ones -/
+def moore (p : Pos) : List Pos :=
+  neumann p ++ [⟨p.x - 1, p.y - 1⟩, ⟨p.x - 1, p.y + 1⟩, ⟨p.x + 1, p.y - 1⟩, ⟨p.x + 1, p.y + 1⟩]
+
+/-- the elements between two iterators `i ≤ j` into a container -/
+def slice {α : Type} (c : List α) (i j : Nat) : List α := (c.drop i).take (j - i)
+
 end Fcppt.C18.Spec
